@@ -354,7 +354,25 @@ struct Srv : ISrv
 
   void start() override
   {
-    ASIO_ERROR_CODE ec(srv.accept_connections(0));
+    // binding an ephemeral port can fail transiently when the machine is busy with thousands of loopback sockets
+    // (an environment limit, not a property of the library): retry for a while
+    ASIO_ERROR_CODE ec;
+    for (int attempt = 0; ; ++attempt)
+    {
+      try
+      {
+        ec = srv.accept_connections(0);
+        if (ec != ASIO::error::address_in_use || attempt >= 200)
+          break;
+      }
+      catch (std::system_error const& e)
+      {
+        if (e.code() != ASIO::error::address_in_use || attempt >= 200)
+          throw;
+      }
+      srv.close();
+      std::this_thread::sleep_for(std::chrono::milliseconds(50));
+    }
     ASIO::ip::tcp::endpoint ep;
     unsigned short port = endpoint(ep) ? ep.port() : 0;
     line("ok port=" + std::to_string(port) + (ec ? " error=" + std::to_string(ec.value()) : ""));
@@ -601,6 +619,11 @@ static bool run_op(Ctx& x, const Words& w)
       ASIO_ERROR_CODE ec;
       peer->connect(ep, ec);
       if (ec) { line("refused"); return true; }
+      {
+        // close with RST at the end of the case: thousands of cases must not leave sockets in TIME_WAIT
+        ASIO_ERROR_CODE ignored;
+        peer->set_option(ASIO::socket_base::linger(true, 0), ignored);
+      }
       x.peers.push_back(std::move(peer));
 
       sim::g().next_hs_fail = vh::arg(w, "hs", "ok") == "fail";
